@@ -32,19 +32,23 @@ def gen_history(ctx, max_dt):
     for _ in range(nt):
         nr = rng.choice([0, 0, 1, 2, 3, maxr])
         rs = [(t(), rng.randint(0, 3)) for _ in range(nr)]
-        hist.append({"out": t(), "readings": rs, "control": True, "with_list": rng.random() < 0.3})
+        out = t()
+        if hist and rng.random() < 0.3:
+            out, rs = hist[-1]["out"], []          # the same output time asked again, with another control
+        hist.append({"out": out, "readings": rs, "control": True, "control_id": rng.randint(1, 3), "with_list": rng.random() < 0.3})
     return t(), hist
 
 
-def by_hand(max_dt, t0, hist, plan):
+def by_hand(max_dt, t0, hist, plan, tagged=True):
     """oracle: the property's sentence executed directly on the recording filter"""
     held_t, held = t0, []
     outs = []
     for tk in hist:
+        c = f" c{tk['control_id']}" if tagged and tk.get("control_id") else ""
         for ts, i in tk["readings"]:
-            held = held + [f"p {rh.fbits(d)}" for d in plan(max_dt, held_t, ts)] + [f"s {i}"]
+            held = held + [f"p {rh.fbits(d)}{c}" for d in plan(max_dt, held_t, ts)] + [f"s {i}"]
             held_t = ts
-        outs.append(held + [f"p {rh.fbits(d)}" for d in plan(max_dt, held_t, tk["out"])])
+        outs.append(held + [f"p {rh.fbits(d)}{c}" for d in plan(max_dt, held_t, tk["out"])])
     return outs
 
 
@@ -59,11 +63,11 @@ def negative_compile(ctx) -> bool | None:
     base = open(os.path.join(core.VERIF, "harness", "cpp", "managed_trace.cpp")).read()
     base = base[: base.index("struct Runner")]
     open(src, "w").write(base + """
-int main() { using I = Impl<0, true, false>; formak::runtime::ManagedFilter<I> mf(0.0, Log{}); auto r = mf.tick(1.0); return (int)r.calls.size(); }
+int main() { using I = Impl<0, true, false>; formak::runtime::ManagedFilter<I> mf(0.0, Log{}); auto r = mf.tick(1.0); return r.head; }
 """)
     pos = os.path.join(ctx.scratch, "pos.cpp")
     open(pos, "w").write(base + """
-int main() { using I = Impl<0, true, false>; formak::runtime::ManagedFilter<I> mf(0.0, Log{}); auto r = mf.tick(1.0, Ctl{}); return (int)r.calls.size() > 1000; }
+int main() { using I = Impl<0, true, false>; formak::runtime::ManagedFilter<I> mf(0.0, Log{}); auto r = mf.tick(1.0, Ctl{}); return r.head > 1000; }
 """)
     flags = ["g++", "-std=c++20", "-O0", "-fsyntax-only", f"-I{core.REPO}/cpp/runtime/include", "-DMAXDT_LIST=0.1"]
     rp = subprocess.run(flags + [pos], capture_output=True, text=True)
@@ -85,7 +89,8 @@ def run(ctx):
     drv = core.Driver()
 
     def enc_hist(hist):
-        return [{"out": rh.fbits(t["out"]), "readings": [[rh.fbits(ts), i] for ts, i in t["readings"]], "control": t["control"]} for t in hist]
+        return [{"out": rh.fbits(t["out"]), "readings": [[rh.fbits(ts), i] for ts, i in t["readings"]], "control": t["control"],
+                 "control_id": t.get("control_id", 0) if t["control"] else 0} for t in hist]
     idx = {}
     for n, (k, t0, hist) in enumerate(cases):
         for rt in ("py", "cpp"):
@@ -118,14 +123,19 @@ def run(ctx):
         if cpp:
             for c in cpp:
                 runs[f"cpp[{rh.COMBOS[c]}]"] = ("cpp", cpp[c][n])
-        hand = by_hand(m, t0, hist, py_plan)
+        hand_tagged = by_hand(m, t0, hist, py_plan, True)
+        hand_plain = by_hand(m, t0, hist, py_plan, False)
         for name, (rt, outs) in runs.items():
+            has_ctl = name in ("python", "cpp[control+calibration]", "cpp[control only]")
+            hand = hand_tagged if has_ctl else hand_plain
             case = {"runtime": name, "max_dt": m, "t0": t0, "history": hist}
             ctx.case(case, nontrivial(hist))
             ctx.traces += 1
             ctx.count(f"ticks={len(hist)}"); ctx.count(f"readings={sum(len(t['readings']) for t in hist)}")
             ctx.count("readonly_ticks", sum(1 for t in hist if not t["readings"]))
             model = ans[idx[(n, rt)]]["ok"]["outs"]
+            if not has_ctl:
+                model = [[c.split(" c")[0] if c.startswith("p ") else c for c in o] for o in model]
             # oracle 1: by-hand replay (uses the Python runtime's own plan, already checked by C10)
             if outs != hand:
                 tick_i = next(i for i, (a, b) in enumerate(zip(outs, hand)) if a != b)
